@@ -332,9 +332,10 @@ def mgr_family(ctx, prefixes, families, nontrivial, quick_n=3000, model_roles=("
 # ---------------------------------------------------------------------------------------------------------
 # trace validation of the repository's own test suite (hook in channels.dispatch, build tag verif)
 # ---------------------------------------------------------------------------------------------------------
-def repo_suite_traces(ctx, prefixes, packages=("./channels/...", "./impl/...", "./itest/...", "./channelmonitor/...")):
-    import subprocess, glob, collections
-    tdir = ctx.path("suite-traces")
+def run_repo_suite(ctx, packages):
+    """runs the repository's own tests (packages) built with -tags verif, VERIF_TRACE -> directory of hook lines"""
+    import subprocess
+    tdir = ctx.path("suite-traces-%d" % len(ctx.stages))
     os.makedirs(tdir, exist_ok=True)
     env = vlib.go_env({"VERIF_TRACE": tdir, "TMPDIR": ctx.scratch, "GOLOG_LOG_LEVEL": "fatal"})
     cmd = [vlib.GO, "test", "-tags", "verif", "-count=1", "-vet=off", "-timeout", "20m"] + list(packages)
@@ -344,10 +345,34 @@ def repo_suite_traces(ctx, prefixes, packages=("./channels/...", "./impl/...", "
         raise Inconclusive("repository suite (with -tags verif) timed out")
     if "[build failed]" in r.stdout or "cannot find package" in r.stdout:
         raise Inconclusive("repository suite does not build with -tags verif:\n" + r.stdout[-2000:])
+    ctx.stages.append({"go": "repository tests -tags verif", "packages": list(packages), "rc": r.returncode})
+    return tdir, r
+
+
+def repo_suite_chantrace(ctx, prefixes, packages=("./channels/...", "./impl/...")):
+    """the repository's own tests as behaviours of Chan.tla only (quick tier: the two fast packages)"""
+    import glob
+    tdir, r = run_repo_suite(ctx, packages)
+    lines = []
+    for f in sorted(glob.glob(os.path.join(tdir, "trace-*.ndjson"))):
+        lines += vlib.read_ndjson(f)
+    if not lines:
+        raise Inconclusive("the hook recorded nothing (is the verif hook still in the channels package?)")
+    ctx.assumptions.append("repository-suite traces: test failures of the (timing-sensitive) suite itself are not verdicts")
+    return chan_trace(ctx, lines, prefixes, "repo-suite")
+
+
+def repo_suite_traces(ctx, prefixes, packages=("./channels/...", "./impl/...", "./itest/...", "./channelmonitor/...")):
+    import glob, collections
+    tdir, r = run_repo_suite(ctx, packages)
     groups = collections.OrderedDict()
     nlines = 0
+    all_lines = []
     for f in sorted(glob.glob(os.path.join(tdir, "trace-*.ndjson"))):
         for l in vlib.read_ndjson(f):
+            all_lines.append(l)
+            if l.get("kind", "notify") not in ("notify", ""):
+                continue
             nlines += 1
             groups.setdefault("%s:%s:%s:%s" % (l["pid"], l.get("inst", ""), l["self"][-6:], l["chid"]), []).append(l)
     if nlines == 0:
@@ -379,4 +404,155 @@ def repo_suite_traces(ctx, prefixes, packages=("./channels/...", "./impl/...", "
             ctx.distinct.add(("suite", c["lines"][i - 1]["status"], c["lines"][i]["ev"]))
     ctx.extra["repo_suite_trace"] = {"channels": len(cases), "transitions": pairs, "suite_exit": r.returncode}
     ctx.assumptions.append("repository-suite traces: the hook in channels.dispatch records announced events; test failures of the (timing-sensitive) suite itself are not verdicts")
+    # the same recorded executions as behaviours of Chan.tla (trace specification ChanTrace.tla)
+    chan_trace(ctx, all_lines, prefixes, "repo-suite")
     return len(cases), pairs
+
+
+# ---------------------------------------------------------------------------------------------------------
+# trace validation against Chan.tla (spec/ChanTrace.tla): send / sent / notify / hcleanup / hunprotect lines
+# ---------------------------------------------------------------------------------------------------------
+CHANTRACE_CFG = '''SPECIFICATION TraceSpec
+CONSTANTS
+ Chans = {"c"}
+ InitChans = {}
+ EnvOps = {}
+ MaxOps = 0
+ MaxQ = 0
+ DataArgs = {}
+ Crashes = 0
+ EnvGuard = "any"
+ TraceFile = "trace.ndjson"
+ NotifyFile = "notify.ndjson"
+CONSTRAINT Mark
+INVARIANTS C09_ExactlyOnce C09_NeverWithout
+PROPERTIES T_C02_Final T_C07_Monotone T_C19_AppendOnly
+POSTCONDITION Post
+CHECK_DEADLOCK FALSE
+'''
+CHANTRACE_RULES = {"T_C02_Final": "C02.final", "T_C07_Monotone": "C07.monotone", "T_C19_AppendOnly": "C19.appendOnly",
+                   "C09_ExactlyOnce": "C09.exactlyOnce", "C09_NeverWithout": "C09.neverWithout"}
+
+
+def chantrace_cases(lines):
+    """hook lines -> one case per (process, Channels instance, channel) that starts with its create line."""
+    import collections
+    lines = sorted(lines, key=lambda x: (x["pid"], x["seq"]))
+    groups, last_inst = collections.OrderedDict(), {}
+    for ln in lines:
+        ln.setdefault("kind", "notify")
+        if ln["kind"] == "":
+            ln["kind"] = "notify"
+        if ln["inst"] == "":
+            # a cleanup-handler line whose environment serves several instances (test fakes): the instance that last touched the channel
+            ln["inst"] = last_inst.get((ln["pid"], ln["chid"]), "")
+        else:
+            last_inst[(ln["pid"], ln["chid"])] = ln["inst"]
+        groups.setdefault((ln["pid"], ln["inst"], ln["chid"]), []).append(ln)
+    cases, skipped = [], collections.Counter()
+    for k, ls in groups.items():
+        if ls[0]["kind"] != "create":
+            skipped["adopted (instance opened over an existing record)"] += 1
+            continue
+        if any(abs(x.get(f, 0)) > 2 ** 30 for x in ls for f in ("n", "queued", "sent", "received", "limit")):
+            skipped["numbers beyond TLC's 32-bit integers"] += 1
+            continue
+        body = [x for x in ls[1:] if x["kind"] != "htrigger"]
+        cases.append({"key": "%s:%s:%s" % k, "reset": dict(ls[0], kind="reset"), "body": body})
+    return cases, skipped
+
+
+def chantrace_concat(cases):
+    out, nnot, spans = [], 0, []
+    for c in cases:
+        r = dict(c["reset"])
+        r["nb"], r["nn"] = nnot, sum(1 for x in c["body"] if x["kind"] == "notify")
+        nnot += r["nn"]
+        start = len(out) + 1
+        out.append(r)
+        out += c["body"]
+        spans.append((start, len(out)))
+    for x in out:
+        x.setdefault("nb", 0); x.setdefault("nn", 0); x.setdefault("gid", 0)
+    return out, spans
+
+
+def chantrace_run(ctx, cases, tag):
+    """one TLC run over the concatenated cases -> ("accepted", None) | ("rejected", line) | ("violated", (prop, line)) """
+    out, spans = chantrace_concat(cases)
+    d = ctx.path("chantrace-%s-%d" % (tag, len(ctx.stages)))
+    os.makedirs(d, exist_ok=True)
+    tp, npth = os.path.join(d, "trace.ndjson"), os.path.join(d, "notify.ndjson")
+    vlib.write_ndjson(tp, out)
+    vlib.write_ndjson(npth, [x for x in out if x["kind"] == "notify"])
+    cfg = write_cfg(ctx, "chantrace.cfg", CHANTRACE_CFG)
+    res = ctx.tlc("ChanTrace", cfg, workers=1, timeout=1500, extra_files=[tp, npth], deadlock=True, dfs=True, heap="8g")
+    if res.timeout:
+        raise Inconclusive("ChanTrace validation timed out (%s, %d lines)" % (tag, len(out)))
+    m = re.search(r'<<"@@reached", (\d+), (\d+)>>', res.out)
+    if res.violated and res.violated in CHANTRACE_RULES:
+        ls = re.findall(r"/\\ l = (\d+)", res.out)
+        return res, out, spans, ("violated", (res.violated, int(ls[-1]) if ls else 0))
+    if "Model checking completed. No error has been found" in res.out and m and int(m.group(1)) == len(out) + 1:
+        return res, out, spans, ("accepted", None)
+    if m and "Postcondition" in res.out:
+        return res, out, spans, ("rejected", int(m.group(1)))
+    raise Inconclusive("ChanTrace validation failed (%s):\n%s" % (tag, res.out[-2500:]))
+
+
+def chan_trace(ctx, lines, prefixes, label, control=True):
+    """Validate hook lines against Chan.tla.  Property formulas that fail on an observed behaviour are violations (if they
+    belong to this check); a case the spec cannot explain is drift; both are set aside and the rest is validated again."""
+    cases, skipped = chantrace_cases(lines)
+    if not cases:
+        raise Inconclusive("no channel trace starts with a create line (%s): is the verif hook still in place?" % label)
+    total = len(cases)
+    accepted_lines, rounds = 0, 0
+    rejected, violated = [], []
+    live = list(cases)
+    while live:
+        rounds += 1
+        if rounds > 12:
+            raise Inconclusive("ChanTrace (%s): more than 12 cases rejected or violating; first: %s" % (label, (rejected + violated)[:2]))
+        res, out, spans, (what, info) = chantrace_run(ctx, live, label)
+        if what == "accepted":
+            accepted_lines = len(out)
+            ctx.add_model(res)
+            break
+        line = info if what == "rejected" else info[1]
+        ci = next((i for i, (a, b) in enumerate(spans) if a <= line <= b), None)
+        if ci is None:
+            raise Inconclusive("ChanTrace (%s): cannot locate line %s" % (label, line))
+        c = live.pop(ci)
+        ln = out[line - 1] if 1 <= line <= len(out) else {}
+        if what == "rejected":
+            rejected.append({"case": c["key"][-60:], "at": line - spans[ci][0], "kind": ln.get("kind"), "ev": ln.get("ev"), "status": ln.get("status")})
+        else:
+            violated.append({"case": c["key"][-60:], "prop": info[0], "at": line - spans[ci][0], "kind": ln.get("kind"), "ev": ln.get("ev"), "status": ln.get("status"),
+                             "lines": [(x["kind"], x.get("ev"), x.get("status")) for x in c["body"][max(0, line - spans[ci][0] - 12):line - spans[ci][0] + 1]]})
+    for r in rejected:
+        ctx.drift.append(dict(r, note="recorded execution is not a behaviour of Chan.tla (ChanTrace, %s)" % label))
+    for v in violated:
+        rule = CHANTRACE_RULES[v["prop"]]
+        if any(rule.startswith(p) for p in prefixes):
+            ctx.violation({"rule": rule, "src": "chan-trace:" + label, "ev": v["ev"], "status": v["status"]},
+                          "%s (%s of Chan.tla) violated on a recorded execution (%s): case %s, %s %s at line %d" % (rule, v["prop"], label, v["case"], v["kind"], v["ev"], v["at"]), detail=v)
+    n_ok = len(live)
+    ctx.traces += n_ok
+    ctx.evaluations += accepted_lines
+    ctx.extra.setdefault("chan_trace", {})[label] = {"cases": total, "accepted": n_ok, "lines_accepted": accepted_lines, "rejected": len(rejected), "violating": len(violated),
+                                                    "skipped": dict(skipped), "tlc_rounds": rounds}
+    # binding control: one recorded field flipped must make TLC reject exactly there
+    if control and live:
+        import copy
+        cc = copy.deepcopy(live)
+        cand = [(i, j) for i, c in enumerate(cc) for j, x in enumerate(c["body"]) if x["kind"] == "notify" and x["status"] not in ("Completed", "Failed", "Cancelled")]
+        if cand:
+            i, j = cand[ctx.rng.randrange(len(cand))]
+            x = cc[i]["body"][j]
+            x["status"] = "Finalizing" if x["status"] != "Finalizing" else "Ongoing"
+            res, out, spans, (what, info) = chantrace_run(ctx, cc, label + "-control")
+            if what == "accepted":
+                raise Inconclusive("ChanTrace accepted a trace with a flipped status (%s): the trace spec does not bind" % label)
+            ctx.extra["chan_trace"][label]["control"] = {"flipped_status_at": spans[i][0] + j + 1, "tlc": what, "at": info if what == "rejected" else info[1]}
+    return n_ok, accepted_lines
